@@ -63,7 +63,7 @@ SPECS["C09"] = {
     "level": "model_checking",
     "groups": [dict(LIBGO, entries=[
         {"name": "VerifC09_ContextRoundTrip", "quick": {"params": [0, 1], "bound": 2}, "thorough": {"params": [0, 1, 2], "bound": 2, "procs": 3}},
-        {"name": "VerifC09_ThroughProcessor", "quick": {"params": [0], "bound": 2}, "thorough": {"params": [0], "bound": 3}},
+        {"name": "VerifC09_ThroughProcessor", "quick": {"params": [0], "bound": 2}, "thorough": {"params": [0], "bound": 3}, "expect_reach": ["end", "onward-call"]},
     ])],
     "level_text": "Bounded symbolic model checking of the real header path of a call (NewFContext, AddRequestHeader, SetTimeout/Timeout, FProtocol.WriteRequestHeader -> bytes -> ReadRequestHeader on the server, AddResponseHeader, WriteResponseHeader -> bytes -> ReadResponseHeader on the client): for all user header names/values (arbitrary bytes, non-reserved names), correlation ids and a set of timeouts the handler context sees exactly the user headers, cid and timeout, carries a fresh op id drawn from the local counter, the response carries the request op id and cid, every handler-set response header reaches the caller and the caller's request headers and own op id are untouched. Pub/sub uses the same ReadRequestHeader. The same obligations are also observed inside a handler behind FBaseProcessor.Process and a processor function of the generated shape (user header, correlation id, timeout from {0 = no deadline, 1 ms, 250 ms, 5 s, 1 h}, fresh op id) and in the reply frame the server produced (op id, correlation id, handler-set response header). Outside: transports (bytes moved verbatim), more/longer headers than the bound.",
     "level_note": "Trusted: go/ssa, gose interpreter, z3. Stubs: fmt, logrus, strconv fast path for concrete digits, sync (engine mutexes).",
@@ -78,6 +78,7 @@ SPECS["C12"] = {
         {"name": "VerifC12_BufferLimit", "tiers": ["thorough"], "thorough": {"params": [4], "bound": 3, "flags": ["-par", "6", "-max-paths", "3000000"]}, "expect_reach": ["end", "accepted", "rejected"]},
         {"name": "VerifC12_PrepareMessage", "quick": {"params": [0, 1, 2], "bound": 3}, "thorough": {"params": [0, 1, 2], "bound": 12}, "expect_reach": ["end", "fits", "too-large"]},
         {"name": "VerifC12_HTTPResponseLimit", "quick": {"params": [0, 1], "bound": 1}, "thorough": {"params": [0, 1, 2], "bound": 2}, "expect_reach": ["end", "fits", "too-large"]},
+        {"name": "VerifC12_HTTPEndToEndLimit", "native": False, "quick": {"params": [0, 2], "procs": 2}, "thorough": {"params": [0, 1, 2, 3], "procs": 4}, "expect_reach": ["end", "fits", "too-large"]},
         {"name": "VerifC12_SendReply", "quick": {"params": [0, 1, 2], "bound": 3}, "thorough": {"params": [0, 1, 2], "bound": 12}, "expect_reach": ["end", "fits", "too-large"]},
         {"name": "VerifC14_SurvivesFailedReply", "native": False, "quick": {"params": [0, 1, 2, 3, 4], "procs": 5}, "thorough": {"params": [0, 1, 2, 3, 4], "procs": 5},
          "expect_reach": ["end", "first-answered", "first-unanswerable"]},
@@ -142,8 +143,10 @@ SPECS["C13"] = {
         {"name": "VerifC13_DeadlineExists", "quick": {"params": [0], "bound": 62}, "thorough": {"params": [0], "bound": 62}},
         {"name": "VerifC13_AdapterReturns", "native": False, "quick": {"params": [0, 1, 2, 3], "flags": ["-preempt", "2"]}, "thorough": {"params": [0, 1, 2, 3], "flags": ["-preempt", "3"]},
          "expect_reach": ["end", "timed-out", "answered", "late-answer"]},
-        {"name": "VerifC13_NatsReturns", "native": False, "quick": {"params": [0, 1], "flags": ["-preempt", "2"]}, "thorough": {"params": [0, 1], "flags": ["-preempt", "3"]},
-         "expect_reach": ["end", "timed-out", "answered"]},
+        {"name": "VerifC13_HTTPReturns", "native": False, "quick": {"params": [0, 1, 2], "flags": ["-preempt", "1"]}, "thorough": {"params": [0, 1, 2], "flags": ["-preempt", "2"]},
+         "expect_reach": ["end", "timed-out", "connection-lost", "answered"]},
+        {"name": "VerifC13_NatsReturns", "native": False, "quick": {"params": [0, 1, 2], "flags": ["-preempt", "2"]}, "thorough": {"params": [0, 1, 2], "flags": ["-preempt", "3"]},
+         "expect_reach": ["end", "timed-out", "answered", "stalled-flush"]},
     ])],
     "level_text": "(a) For EVERY positive timeout below 2^62 ns (symbolic int64; the /1e6 and *1e6 kernel is decided by cvc5's integer encoding of bit-vectors because bit-blasting does not terminate) SetTimeout/Timeout yields a positive deadline within 1 ms (the wire granularity) of the requested one, so ToContext always installs a deadline. (b)/(c) Bounded symbolic execution with threads and a virtual clock of the real fAdapterTransport.Request/Oneway/send and fNatsTransport.Request: with a silent peer, a late answer (before or after the deadline), a write that blocks forever or a flush that blocks forever the call returns (a call that never returns is a deadlock of the harness), fails only with TIMED_OUT, succeeds only with the peer's answer, and leaves no registration behind; timeouts 0.5 ms, 1 ms, 2.5 ms. Outside: HTTP transport (net/http internals), wall-clock allowances (time is virtual: any delay is possible).",
     "level_note": "Trusted: go/ssa, gose interpreter and scheduler model, z3, cvc5 1.0 (--solve-bv-as-int=sum) for the division kernel; time/context are engine models (a timer may fire at any scheduling point once it is the earliest pending one); nats.go is the contract model in harness/libgo/zz_verif_nats.go. " + SCHED_NOTE,
@@ -159,6 +162,8 @@ SPECS["C15"] = {
         {"name": "VerifC15_Monitored", "native": False, "quick": {"params": [0, 1], "flags": ["-preempt", "1"]}, "thorough": {"params": [0, 1, 2], "flags": ["-preempt", "2"]},
          "expect_reach": ["end", "second-failure-notified"]},
         {"name": "VerifC15_ReopenPolicy", "quick": {"params": [0]}, "thorough": {"params": [0]}},
+        {"name": "VerifC15_ConcurrentOpen", "native": False, "quick": {"params": [0], "flags": ["-preempt", "2"]}, "thorough": {"params": [0], "flags": ["-preempt", "3"]}},
+        {"name": "VerifC15_NatsOutage", "native": False, "quick": {"params": [0, 1], "flags": ["-preempt", "1"]}, "thorough": {"params": [0, 1], "flags": ["-preempt", "2"]}, "expect_reach": ["end", "close-during-outage"]},
         {"name": "VerifC15_RepeatedOutages", "native": False, "quick": {"params": [0, 1], "flags": ["-preempt", "1"]}, "thorough": {"params": [0, 1, 2], "flags": ["-preempt", "2"]},
          "expect_reach": ["end", "later-outage-with-refusals", "budget-exhausted"]},
     ])],
@@ -220,7 +225,7 @@ SPECS["C14"] = {
          "expect_reach": ["end"]},
         {"name": "VerifC14_ConcurrentReplies", "native": False, "quick": {"params": [0, 1, 4], "flags": ["-preempt", "1"], "procs": 3}, "thorough": {"params": [0, 1, 2, 3, 4], "flags": ["-preempt", "2", "-par", "2"], "procs": 5}},
         {"name": "VerifC14_NatsServerReplies", "native": False, "quick": {"params": [0, 1, 2, 3, 4], "bound": 0, "procs": 5}, "thorough": {"params": [0, 1, 2, 3, 4], "bound": 1, "procs": 5}},
-        {"name": "VerifC14_HTTPReplies", "quick": {"params": [0, 1, 2, 3, 4], "procs": 5}, "thorough": {"params": [0, 1, 2, 3, 4], "procs": 5}},
+        {"name": "VerifC14_HTTPReplies", "quick": {"params": [0, 1, 2, 3, 4, 5], "procs": 6}, "thorough": {"params": [0, 1, 2, 3, 4, 5], "procs": 6}, "expect_reach": ["end", "over-limit"]},
         {"name": "VerifC14_SurvivesFailedReply", "native": False, "quick": {"params": [0, 1, 2, 3, 4], "procs": 5}, "thorough": {"params": [0, 1, 2, 3, 4], "procs": 5},
          "expect_reach": ["end", "first-answered", "first-unanswerable"]},
     ])],
@@ -281,6 +286,8 @@ SPECS["C11"] = {
         dict(PARSER, entries=[
             {"name": "VerifC11_TypedefResolution", "flags": ["-unwind-violation", "-max-decisions", "1500"], "quick": {"params": [0, 1]}, "thorough": {"params": [0, 1, 2], "flags": ["-par", "6"]},
              "expect_reach": ["end", "accepted", "rejected"]},
+            {"name": "VerifC11_EnumNumbering", "quick": {"params": [0, 1, 2]}, "thorough": {"params": [0, 1, 2, 3]}},
+            {"name": "VerifC11_TypeValidation", "quick": {"params": [0, 1, 2], "procs": 3}, "thorough": {"params": [0, 1, 2], "procs": 3}, "expect_reach": ["end", "undefined-type", "all-defined"]},
         ]),
         dict(GOLANG, entries=[
             {"name": "VerifC11_GoIdentifiers", "quick": {"params": [1, 2, 3, 4], "procs": 4}, "thorough": {"params": [1, 2, 3, 4, 5], "procs": 5, "flags": ["-par", "3"]}},
